@@ -7,6 +7,9 @@ package main
 // run - on shared values, repeatedly, under other map orders and concurrently.
 
 import (
+	"fmt"
+	"strings"
+
 	"github.com/zclconf/go-cty/cty"
 	"github.com/zclconf/go-cty/cty/function"
 	"github.com/zclconf/go-cty/cty/function/stdlib"
@@ -164,6 +167,83 @@ func init() {
 			return opRes{s: sp.name + ":" + errClass(err)}
 		}
 		return opRes{vals: []cty.Value{r}, s: sp.name}
+	}, selAny)
+	// a result of one library function handed to the next, twice, with different companions: results share
+	// internals with their arguments (a slice of a tuple type, a type grown by concatenation), and the second
+	// use must not disturb the first result, the intermediate value or the pool values they came from
+	defOp("StdlibChain", "", func(t *taskState, a [3]cty.Value, p [3]int) opRes {
+		sp := typedSpecs[p[0]%len(typedSpecs)]
+		args := make([]cty.Value, len(sp.args))
+		for i := range args {
+			args[i] = typedArg(t, sp.args[i], p[1]+i*(p[2]|1))
+		}
+		r1, err := sp.f.Call(args)
+		if err != nil {
+			return opRes{s: sp.name + ":" + errClass(err)}
+		}
+		ur1, _ := r1.Unmark()
+		accepts := "a"
+		switch ty := ur1.Type(); {
+		case ty == cty.String:
+			accepts += "s"
+		case ty == cty.Number:
+			accepts += "n"
+		case ty == cty.Bool:
+			accepts += "b"
+		case ty.IsListType():
+			accepts += "lq"
+		case ty.IsMapType():
+			accepts += "m"
+		case ty.IsSetType():
+			accepts += "eq"
+		case ty.IsTupleType():
+			accepts += "tq"
+		case ty.IsObjectType():
+			accepts += "o"
+		}
+		type slot struct{ spec, pos int }
+		var slots []slot
+		for si, s2 := range typedSpecs {
+			for pos := 0; pos < len(s2.args); pos++ {
+				if strings.IndexByte(accepts, s2.args[pos]) >= 0 && (s2.args[pos] != 'a' || (si+pos)%4 == 0) {
+					slots = append(slots, slot{si, pos})
+				}
+			}
+		}
+		sl := slots[(p[1]/7)%len(slots)]
+		sp2 := typedSpecs[sl.spec]
+		res := opRes{vals: []cty.Value{r1}, s: sp.name + ">" + sp2.name}
+		mid := r1
+		if p[2]%4 == 1 {
+			// what is known about the intermediate result is only its type (which it shares with the value)
+			mid = cty.UnknownVal(ur1.Type())
+		}
+		fpMid := fp(r1)
+		var firstFP string
+		for branch := 0; branch < 2; branch++ {
+			args2 := make([]cty.Value, len(sp2.args))
+			for i := range args2 {
+				args2[i] = typedArg(t, sp2.args[i], p[2]/4+branch*5+i*(p[1]|1))
+			}
+			args2[sl.pos] = mid
+			r2, err := sp2.f.Call(args2)
+			if err != nil {
+				res.s += ":" + errClass(err)
+				continue
+			}
+			res.vals = append(res.vals, r2)
+			if branch == 0 {
+				firstFP = fp(r2)
+			} else if firstFP != "" && res.viol == "" {
+				if now := fp(res.vals[1]); now != firstFP {
+					res.viol = fmt.Sprintf("the result of %s(%s result, ...) changed when %s was called again with the same intermediate value and other companions\nbefore: %s\nafter:  %s", sp2.name, sp.name, sp2.name, clip(firstFP), clip(now))
+				}
+			}
+		}
+		if now := fp(r1); now != fpMid && res.viol == "" {
+			res.viol = fmt.Sprintf("the result of %s changed when it was handed to %s\nbefore: %s\nafter:  %s", sp.name, sp2.name, clip(fpMid), clip(now))
+		}
+		return res
 	}, selAny)
 	// the objects derived from a shared Function: a re-described copy, its proxy, its unpredictable twin; the
 	// shared original must describe itself as before afterwards
